@@ -31,27 +31,33 @@ Lemma D_is_sequential_answer :
 Proof. exact cache_typed_get_any_history. Qed.
 
 (** the property as it is worded: under every schedule prefix of any number of threads making any number of
-    typed calls, a thread that has finished has received, call by call, what each call returns when it runs
-    alone on a cache-free resolver; an unfinished thread has received a prefix of that *)
-Theorem conc_answers_alone : forall c prog rank progs sched fuel t,
+    typed calls and loads of shared lazy cells, a thread that has finished has received, item by item, what each
+    item returns when it runs alone on a cache-free resolver (a lazy cell alone = the typed get of the reference it
+    holds); an unfinished thread has received a prefix of that *)
+Definition item_ref (cells : N -> tcall) (cl : tcall) : ref :=
+  if fst cl =? LAZY then snd (cells (snd cl)) else snd cl.
+
+Theorem conc_answers_alone : forall c prog cells rank progs sched fuel t,
   per_thread c = true -> acyclic prog rank ->
-  (forall cl, In cl (nth t progs []) -> (rank (snd cl) < fuel)%nat) ->
-  let g := run_sched c prog (ginit progs) sched in
-  let alone := fun cl : tcall => fst (get no_cache prog fuel [] (fst cl) (snd cl) init) in
+  (forall cl, In cl (nth t progs []) -> (rank (item_ref cells cl) < fuel)%nat) ->
+  let g := run_sched c prog cells (ginit cells progs) sched in
+  let alone := call_ans (lazy_seq cells (fun ty r => fst (get no_cache prog fuel [] ty r init))) in
   (exists k, results (threads g t) = map alone (firstn k (nth t progs []))) /\
   (finished g t = true -> results (threads g t) = map alone (nth t progs [])).
 Proof.
-  intros c prog rank progs sched fuel t Hpt Hac Hfuel g alone.
-  destruct (conc_per_thread_chain c prog rank Hpt Hac progs sched) as (_ & _ & Hpre & Hfin & _).
+  intros c prog cells rank progs sched fuel t Hpt Hac Hfuel g alone.
+  destruct (conc_per_thread_chain c prog cells rank Hpt Hac progs sched) as (_ & _ & Hpre & Hfin & _).
   assert (Hext : forall l, (forall cl, In cl l -> In cl (nth t progs [])) ->
-                           map (call_ans (D prog rank)) l = map alone l).
-  { intros l Hl. apply map_ext_in. intros cl Hin. unfold alone, call_ans. symmetry.
-    apply D_is_alone_answer; [exact Hac|]. apply Hfuel. apply Hl. exact Hin. }
+                           map (call_ans (lazy_seq cells (D prog rank))) l = map alone l).
+  { intros l Hl. apply map_ext_in. intros cl Hin. unfold alone, call_ans, lazy_seq. symmetry.
+    specialize (Hfuel cl (Hl cl Hin)). unfold item_ref in Hfuel.
+    destruct (fst cl =? LAZY); apply D_is_alone_answer; assumption. }
   split.
   - destruct (Hpre t) as (k & Hk). exists k. fold g in Hk. rewrite Hk. apply Hext.
     intros cl Hin. rewrite <- (firstn_skipn k (nth t progs [])). apply in_or_app. left. exact Hin.
   - intros Hf. fold g in Hfin. rewrite (Hfin t Hf). apply Hext. auto.
 Qed.
+
 (** * the class of changes "serve a cached error of some kinds" under concurrency
 
     [step_gen serve] is [step] with the decision "return an error found in the cache as it is?" left open ([step]
@@ -67,7 +73,7 @@ Theorem conc_serving_cached_errors_refuted : forall k : N, In k error_kinds ->
   let serve := fun e : N => e =? k in
   let prog := kind_prog k in
   let c := mkCcfg true true true in
-  let g := fold_left (step_gen c prog serve) [0; 0; 1; 1; 0; 0; 0; 1; 1; 1; 1; 1]%nat (ginit [[(1, 3)]; [(2, 3)]]) in
+  let g := fold_left (step_gen c prog no_cells serve) [0; 0; 1; 1; 0; 0; 0; 1; 1; 1; 1; 1]%nat (ginit no_cells [[(1, 3)]; [(2, 3)]]) in
   acyclic prog (fun _ => O) /\ finished g 1%nat = true /\
   results (threads g 1%nat) = [Err k] /\ fst (get no_cache prog 2 [] 2 3 init) = Ok 7.
 Proof.
